@@ -406,7 +406,8 @@ class WorldGen:
             self.emit(10, w)
             self.add(w, False, (), reserved=True)
         elif op == 10:
-            n = r.choice([0, 1, 2, 3, 5])
+            # now and then more reservations than the component-less archetype has spare rows (one flush, many rows)
+            n = r.choice([0, 1, 2, 3, 5]) if r.random() < 0.93 else r.choice([63, 64, 70, 100])
             self.emit(11, w, n)
             self.add(w, False, (), reserved=True, n=n)
         elif op == 11:
@@ -1056,7 +1057,7 @@ def serde_case(universe, rnd, nops, malformed, large=False):
             g.emit(15, 0, len(ts), ts, n, [g.val() for _ in range(n * len(ts))]); g.materialise(0); g.add(0, True, ts, n=n)
         for fmt in (0, 1):
             g.emit(90, 0, fmt, rnd.randrange(2), 0, len(QASTS[0]), QASTS[0], 0)
-    if large or (not malformed and rnd.random() < 0.003):
+    if large or (not malformed and rnd.random() < 0.0005):
         # one archetype with more than 4096 entities (sizes at which a decoder may stop trusting announced counts)
         n = 4097          # ids 0..4096: the id-targeted spawns of the decoder are exercised up to id 4096 on both sides
         ts = rnd.choice([[1], [1, 2], [1, 5]])
